@@ -71,11 +71,15 @@ def run(chk):
         chk.ob("R18.1", NUM, q, "R = v . w is formed after the correction, on every path", ret.value == matmul(v, w) and not ret.guards,
                expected=str(matmul(v, w)), found=str(ret.value))
     if chk.want("R18.2"):
+        # the matrix handed to the SVD (read through the local that names it, when there is one)
         cov = [vv for k, vv in ev.defs.items() if k[1] == "cov"]
-        chk.ob("R18.2", NUM, q, "covariance is A^T . B", bool(cov) and cov[0] == matmul(transpose(A), B), expected=str(matmul(transpose(A), B)),
-               found=str(cov[0]) if cov else None)
         svd = [e for e in ev.events if e.kind == "call" and call_name(e.value.as_atom() or ()) == "numpy.linalg.svd"]
-        chk.ob("R18.2", NUM, q, "the SVD is taken of that covariance", bool(svd) and svd[0].extra["args"][0].key() == "$cov")
+        arg = svd[0].extra["args"][0] if svd and svd[0].extra.get("args") else None
+        named = arg is not None and arg.key() == "$cov"
+        covv = cov[0] if (named or arg is None) and cov else arg
+        chk.ob("R18.2", NUM, q, "covariance is A^T . B", covv is not None and covv == matmul(transpose(A), B), expected=str(matmul(transpose(A), B)),
+               found=str(covv) if covv is not None else None)
+        chk.ob("R18.2", NUM, q, "the SVD is taken of that covariance", bool(svd) and (named or not cov))
         rv = num.ev("reorient_points")
         chk.saw(NUM, "reorient_points")
         a0, b0 = P.name(rv.param_names[0]), P.name(rv.param_names[1])
@@ -97,7 +101,12 @@ def run(chk):
                 da = d
                 # d = B - A' with A' = ite(reorient, reorient_points(A, B, method=reorient), A)
                 aprime = b0 - d
-                ok = ok and "reorient_points(" in aprime.key() and aprime.as_atom() is not None and aprime.as_atom()[0] == "ite"
+                #   (or reorient_points' own word A . kabsch(A, B) written out in place)
+                ap = aprime.as_atom()
+                rp = num.ev("reorient_points")
+                word = rp.returns[-1].value.subs({P.name(rp.param_names[0]).as_atom(): a0, P.name(rp.param_names[1]).as_atom(): b0})
+                ok = ok and ap is not None and ap[0] == "ite" and ap[3].key() == a0.key() and \
+                    ("reorient_points(" in ap[2].key() or ap[2].key() == word.key())
         chk.ob("R18.3", NUM, "rmsd_points", "RMSD = sqrt(<d, d> / N) with d = B - (aligned A)", ok, found=str(ret)[:200])
         # every exit reports that deviation: a shortcut return (e.g. from singular values, |A|^2 + |B|^2 - 2 sum s, which is the
         # optimum over ALL orthogonal matrices, reflections included) is a different quantity
